@@ -459,6 +459,7 @@ func runDecisionRows(c *core.Ctx, e *Env, pkgPath, defaultType string, rows []dt
 			paths [][]dtGuard
 			value ast.Expr
 			node  ast.Node
+			fr    *dtFrame // frame the value expression is read in (nil: fr)
 		}
 		var effs []eff
 		var expr ast.Expr
@@ -469,14 +470,28 @@ func runDecisionRows(c *core.Ctx, e *Env, pkgPath, defaultType string, rows []dt
 				continue
 			}
 		} else {
-			bodies := bodiesOf(fn)
-			// path conditions of a literal's call site, composed outwards to the declaration body
-			var sitePaths func(b fnBody) ([][]dtGuard, bool)
-			sitePaths = func(b fnBody) ([][]dtGuard, bool) {
-				if b.lit == nil {
-					return [][]dtGuard{nil}, true
+			// fullPaths: acyclic path conditions from the entry of function f to node n inside its body b, composed through the
+			// call sites of enclosing function literals; guards are tagged with frame tagFr (nil for the row's own function)
+			var fullPaths func(f *an.Func, bodies []fnBody, b fnBody, g *an.Graph, n ast.Node, tagFr *dtFrame) ([][]dtGuard, bool)
+			fullPaths = func(f *an.Func, bodies []fnBody, b fnBody, g *an.Graph, n ast.Node, tagFr *dtFrame) ([][]dtGuard, bool) {
+				at := g.AtomOf(n)
+				if at == nil {
+					at = n
 				}
-				// innermost enclosing body
+				ps, okp := allPaths(g, at)
+				if !okp {
+					return nil, false
+				}
+				if tagFr != nil {
+					for i := range ps {
+						for k := range ps[i] {
+							ps[i][k].fr = tagFr
+						}
+					}
+				}
+				if b.lit == nil {
+					return ps, true
+				}
 				var parent *fnBody
 				for i := range bodies {
 					pb := bodies[i]
@@ -490,70 +505,206 @@ func runDecisionRows(c *core.Ctx, e *Env, pkgPath, defaultType string, rows []dt
 				if parent == nil {
 					return nil, false
 				}
-				pg := graphOfBody(e, fn.Pkg, fn, *parent)
-				at := pg.AtomOf(b.lit)
-				if at == nil {
+				pg := graphOfBody(e, f.Pkg, f, *parent)
+				outer, oko := fullPaths(f, bodies, *parent, pg, b.lit, tagFr)
+				if !oko {
 					return nil, false
 				}
-				inner, ok := allPaths(pg, at)
-				if !ok {
-					return nil, false
-				}
-				outer, ok := sitePaths(*parent)
-				if !ok {
-					return nil, false
-				}
-				var out [][]dtGuard
+				var comb [][]dtGuard
 				for _, o := range outer {
-					for _, in := range inner {
-						out = append(out, append(append([]dtGuard(nil), o...), in...))
+					for _, in := range ps {
+						comb = append(comb, append(append([]dtGuard(nil), o...), in...))
 					}
 				}
-				return out, len(out) < 20000
+				return comb, len(comb) < 20000
 			}
-			for _, b := range bodies {
-				g := graphOfBody(e, fn.Pkg, fn, b)
-				var nodes []ast.Node
-				an.Inspect(b.body, func(m ast.Node) bool {
-					if row.find(info, m) {
-						nodes = append(nodes, m)
-					}
-					return true
-				})
-				for _, n := range nodes {
-					at := g.AtomOf(n)
-					if at == nil {
-						at = n
-					}
-					ps, okp := allPaths(g, at)
-					if !okp {
-						c.Lost(key, "too many paths to the effect in %s", fn.Name())
-						continue
-					}
-					if b.lit != nil {
-						outer, oko := sitePaths(b)
-						if !oko {
-							c.Lost(key, "cannot compose the path condition of the enclosing literal in %s", fn.Name())
-							continue
+			// search f (read in frame curFr, reached under the path conditions prefix) for the row's effects, then the helpers of
+			// the same package it calls: an effect that a refactoring moved into a helper is the same decision, made at the
+			// call site and inside the helper
+			visited := map[*an.Func]bool{}
+			descend := false // helpers are searched only when the function itself no longer contains the effect
+			var search func(f *an.Func, curFr *dtFrame, prefix [][]dtGuard, depth int)
+			search = func(f *an.Func, curFr *dtFrame, prefix [][]dtGuard, depth int) {
+				if visited[f] || depth > 2 {
+					return
+				}
+				visited[f] = true
+				defer func() { visited[f] = false }()
+				finfo := f.Pkg.Info
+				bodies := bodiesOf(f)
+				var tagFr *dtFrame
+				if depth > 0 {
+					tagFr = curFr
+				}
+				for _, b := range bodies {
+					g := graphOfBody(e, f.Pkg, f, b)
+					var nodes []ast.Node
+					var calls []*ast.CallExpr
+					an.Inspect(b.body, func(m ast.Node) bool {
+						if row.find(finfo, m) {
+							// a return inside a helper is the helper's, not the function's
+							if _, isRet := m.(*ast.ReturnStmt); !isRet || depth == 0 {
+								nodes = append(nodes, m)
+							}
+						}
+						if call, ok := m.(*ast.CallExpr); ok {
+							calls = append(calls, call)
+						}
+						return true
+					})
+					compose := func(ps [][]dtGuard) ([][]dtGuard, bool) {
+						if prefix == nil {
+							return ps, true
 						}
 						var comb [][]dtGuard
-						for _, o := range outer {
+						for _, o := range prefix {
 							for _, in := range ps {
 								comb = append(comb, append(append([]dtGuard(nil), o...), in...))
 							}
 						}
-						ps = comb
+						return comb, len(comb) < 20000
 					}
-					ef := eff{paths: ps, node: n}
-					if row.valueOf != nil {
-						ef.value = row.valueOf(info, n)
+					for _, n := range nodes {
+						ps, okp := fullPaths(f, bodies, b, g, n, tagFr)
+						if okp {
+							ps, okp = compose(ps)
+						}
+						if !okp {
+							c.Lost(key, "too many paths to the effect in %s", f.Name())
+							continue
+						}
+						ef := eff{paths: ps, node: n, fr: tagFr}
+						if row.valueOf != nil {
+							ef.value = row.valueOf(finfo, n)
+						}
+						effs = append(effs, ef)
 					}
-					effs = append(effs, ef)
+					if depth >= 2 || !descend {
+						continue
+					}
+					for _, call := range calls {
+						callee := e.Ix.FuncOf(an.CalleeFunc(finfo, call))
+						if callee == nil || callee.Pkg != f.Pkg || callee.Body() == nil || callee == fn || visited[callee] {
+							continue
+						}
+						if singleReturn(callee) != nil {
+							continue // predicate helpers are inlined where conditions are evaluated
+						}
+						// does the helper (or what it calls) contain the effect at all?
+						has := false
+						an.Inspect(callee.Body(), func(m ast.Node) bool {
+							if _, isRet := m.(*ast.ReturnStmt); !isRet && row.find(callee.Pkg.Info, m) {
+								has = true
+							}
+							return !has
+						})
+						if !has {
+							continue
+						}
+						site, oks := fullPaths(f, bodies, b, g, call, tagFr)
+						if oks {
+							site, oks = compose(site)
+						}
+						if !oks {
+							continue
+						}
+						// bind the helper's receiver and parameters to the caller's expressions
+						nfr := &dtFrame{info: callee.Pkg.Info, subst: map[types.Object]dtBound{}, recv: curFr.recv}
+						if callee.Decl.Recv != nil && len(callee.Decl.Recv.List) == 1 && len(callee.Decl.Recv.List[0].Names) == 1 {
+							if sel, ok := an.Unparen(call.Fun).(*ast.SelectorExpr); ok {
+								nfr.subst[callee.Pkg.Info.Defs[callee.Decl.Recv.List[0].Names[0]]] = dtBound{expr: sel.X, frame: curFr}
+							}
+						}
+						ai := 0
+						for _, fld := range callee.Decl.Type.Params.List {
+							for _, nm := range fld.Names {
+								if ai < len(call.Args) {
+									nfr.subst[callee.Pkg.Info.Defs[nm]] = dtBound{expr: call.Args[ai], frame: curFr}
+								}
+								ai++
+							}
+						}
+						search(callee, nfr, site, depth+1)
+					}
 				}
+			}
+			search(fn, fr, nil, 0)
+			if len(effs) == 0 {
+				descend = true
+				search(fn, fr, nil, 0)
 			}
 			if len(effs) == 0 {
 				c.Lost(key, "the effect this row describes was not found in %s", fn.Name())
 				continue
+			}
+		}
+		// loop-exit guards that mention none of the row's atoms are context
+		{
+			declared := map[string]bool{}
+			for name := range row.ints {
+				declared[name] = true
+			}
+			for _, name := range row.bools {
+				declared[name] = true
+			}
+			for ei := range effs {
+				for pi := range effs[ei].paths {
+					for gi := range effs[ei].paths[pi] {
+						gd := &effs[ei].paths[pi][gi]
+						if !gd.loopExit {
+							continue
+						}
+						tmp := newDtEval(e)
+						tmp.root = ev.root
+						_, _ = tmp.evalGuards([]dtGuard{*gd}, fr, nil)
+						uses := false
+						for name := range tmp.intTerms {
+							if declared[name] {
+								uses = true
+							}
+						}
+						for name := range tmp.boolAtoms {
+							if declared[name] {
+								uses = true
+							}
+						}
+						// with occurrence numbering the declared names carry #k: compare by base name too
+						if !uses {
+							for name := range declared {
+								base := name
+								if k := strings.LastIndex(base, "#"); k > 0 {
+									base = base[:k]
+								}
+								if tmp.boolAtoms[base] {
+									uses = true
+								}
+								if _, ok := tmp.intTerms[base]; ok {
+									uses = true
+								}
+							}
+						}
+						// ... or by shape (a renamed local may be re-bound to a table atom later)
+						if !uses {
+							shapes := map[string]bool{}
+							for name := range declared {
+								shapes[atomShape(name)] = true
+							}
+							for name := range tmp.intTerms {
+								if shapes[atomShape(name)] {
+									uses = true
+								}
+							}
+							for name := range tmp.boolAtoms {
+								if shapes[atomShape(name)] {
+									uses = true
+								}
+							}
+						}
+						if !uses {
+							gd.skip = true
+						}
+					}
+				}
 			}
 		}
 		// first pass collects atoms
@@ -579,7 +730,11 @@ func runDecisionRows(c *core.Ctx, e *Env, pkgPath, defaultType string, rows []dt
 					}
 				}
 				if ef.value != nil {
-					if _, err := ev.evalInt(ef.value, fr, env); err != nil && env != nil {
+					vfr := fr
+					if ef.fr != nil {
+						vfr = ef.fr
+					}
+					if _, err := ev.evalInt(ef.value, vfr, env); err != nil && env != nil {
 						evalErr = err
 					}
 				}
@@ -595,7 +750,7 @@ func runDecisionRows(c *core.Ctx, e *Env, pkgPath, defaultType string, rows []dt
 				g := graphOfBody(e, fn.Pkg, fn, b)
 				for _, blk := range g.CFG.Blocks {
 					if cd, tag := g.Cond(blk); cd != nil {
-						_, _ = ev.evalGuards([]dtGuard{{cd, tag, true}}, fr, nil)
+						_, _ = ev.evalGuards([]dtGuard{{cond: cd, tag: tag, outcome: true}}, fr, nil)
 					}
 				}
 			}
@@ -817,7 +972,11 @@ func runDecisionRows(c *core.Ctx, e *Env, pkgPath, defaultType string, rows []dt
 								continue
 							}
 							hits++
-							v, err := ev.evalInt(ef.value, fr, env)
+							vfr := fr
+							if ef.fr != nil {
+								vfr = ef.fr
+							}
+							v, err := ev.evalInt(ef.value, vfr, env)
 							if err != nil {
 								evalErr = err
 								return false
